@@ -258,7 +258,11 @@ func c12Ctx(c c12Cmd) context.Context {
 // BootstrapContext / SigningKeyContext (+ cmd.RotateCommand.InitContext for the serial default) /
 // WipeoutContext on top of a keys.Context.
 func c12Run(kc *keys.Context, c c12Cmd) (bool, string) {
-	ctx := keys.NewContext(c12Ctx(c), kc)
+	return c12RunIn(keys.NewContext(c12Ctx(c), kc), c)
+}
+
+// c12RunIn is c12Run on a context that already carries the keys.Context (and whatever else the stack needs).
+func c12RunIn(ctx context.Context, c c12Cmd) (bool, string) {
 	switch c.kind {
 	case 'b':
 		ctx = rotate.NewBootstrapContext(ctx, &rotate.BootstrapContext{RootKeyCommonName: c.rootCn, SigningKeyCommonName: c.signCn,
@@ -499,6 +503,8 @@ func c12NewStack(which int, seed uint64) (c12Stack, error) {
 		return &c12MemMem{signer: &nonprod.Signer{Rand: c12Rand(seed)}, ca: memca.Create(), seed: seed}, nil
 	case 1:
 		return &c12MemGcs{signer: &nonprod.Signer{Rand: c12Rand(seed)}, st: c12Mock{&teststorage.Mock{}}, seed: seed}, nil
+	case 4:
+		return newC12KmsStack(seed), nil // c12_kms.go
 	}
 	dir, err := os.MkdirTemp("", "verif-c12-")
 	if err != nil {
@@ -512,7 +518,7 @@ func c12NewStack(which int, seed uint64) (c12Stack, error) {
 	return &c12Local{dir: dir, seed: seed, viaCLI: which == 3}, nil
 }
 
-var c12StackNames = []string{"memkm+memca", "memkm+gcsca(mock)", "localkm+gcsca(local)", "cli(localkm+localca)"}
+var c12StackNames = []string{"memkm+memca", "memkm+gcsca(mock)", "localkm+gcsca(local)", "cli(localkm+localca)", "gcpkms+gcsca(mock)"}
 
 // ---------------------------------------------------------------------------------------------
 // generator
